@@ -327,7 +327,7 @@ func drawC11(t *rapid.T) *Case {
 func init() {
 	register(&CheckDef{ID: "C10", Level: "fault_enumeration", Engine: "A", Draw: drawC10,
 		Rule:     "random part: a faulty client (random bytes on the raw TCP connection; random / mutated / truncated HTTP/2 frame bytes or HTTP/1.1 garbage inside a real TLS session; abort at a random offset; injected I/O error or callback panic) runs next to a concurrent control client and before a second control client; oracle: the worker process is alive and both control clients are served with correct fingerprints. Non-trivial: a fault fired or garbage was sent. Distinct: distinct controller action-label sequences.",
-		EnumRule: "enumerated part over a fixed HTTP/1.1 and a fixed HTTP/2 session: client disconnect (FIN and RST) after EVERY byte offset; a read error (ECONNRESET / timeout / generic), a write error (EPIPE / timeout) and a deadline-setter error at EVERY I/O operation index of the proxy side of the connection; a panic at EVERY occurrence of each user callback reachable from the connection goroutine (GetConfigForClient, GetCertificate, ConnState, header injector, request handler). After each case a control client performs a full request on a fresh connection. Quick tier: stride sample; thorough tier: every index.",
+		EnumRule: "enumerated part: 9360 boundary frames (every frame type 0-9 x 8 flag sets x length 0-12 x 9 pad-length octets around the frame length and around length minus the fixed fields) behind a legal preface and an open stream; then, over a fixed HTTP/1.1 and a fixed HTTP/2 session: client disconnect (FIN and RST) after EVERY byte offset; a read error (ECONNRESET / timeout / generic), a write error (EPIPE / timeout) and a deadline-setter error at EVERY I/O operation index of the proxy side of the connection; a panic at EVERY occurrence of each user callback reachable from the connection goroutine (GetConfigForClient, GetCertificate, ConnState, header injector, request handler). After each case a control client performs a full request on a fresh connection. Quick tier: stride sample; thorough tier: every index.",
 		Enum:     &EnumDef{Params: faultParams, Count: c10Count, Case: c10Case}})
 }
 
@@ -354,6 +354,10 @@ func panicOccurrences(p map[string]int, s, site string) int {
 }
 
 func c10Decode(p map[string]int, i int) c10Fault {
+	if i < nBoundaryFrames {
+		return c10Fault{Kind: "frame", Session: "h2", Idx: i}
+	}
+	i -= nBoundaryFrames
 	for _, s := range []string{"h1", "h2"} {
 		n := 2 * (p[s+"_total"] + 1)
 		if i < n {
@@ -390,8 +394,37 @@ func c10Decode(p map[string]int, i int) c10Fault {
 	return c10Fault{Kind: "none"}
 }
 
+var boundaryFlags = []uint8{0x8, 0x28, 0x20, 0x9, 0x2d, 0x0, 0x4, 0x1}
+
+const nBoundaryFrames = 10 * 8 * 13 * 9
+
+func boundaryFrame(i int) Frame {
+	typ := uint8(i % 10)
+	i /= 10
+	flags := boundaryFlags[i%8]
+	i /= 8
+	ln := i % 13
+	i /= 13
+	padSel := i % 9
+	pl := make([]byte, ln)
+	for k := range pl {
+		pl[k] = byte(k * 17)
+	}
+	if ln > 0 {
+		pl[0] = byte([]int{0, ln - 1, ln, ln + 1, 255, ln - 2, ln - 5, ln - 6, ln - 7}[padSel] & 0xff)
+	}
+	stream := uint32(1) // an open stream
+	if ln%2 == 1 {
+		stream = 3 // a new stream
+	}
+	if typ == FSettings || typ == FPing || typ == FGoAway {
+		stream = 0
+	}
+	return Frame{Type: typ, Flags: flags, Stream: stream, Payload: pl}
+}
+
 func c10Count(p map[string]int) int {
-	n := 0
+	n := nBoundaryFrames
 	for _, s := range []string{"h1", "h2"} {
 		n += 2*(p[s+"_total"]+1) + len(readKinds)*p[s+"_rops"] + len(writeKinds)*p[s+"_wops"] + p[s+"_dops"]
 		for _, site := range panicSites {
@@ -411,6 +444,17 @@ func c10Case(p map[string]int, i int) *Case {
 	plan.Faults.Front = map[int]ConnFaults{}
 	plan.Faults.PanicAt = map[string]int{}
 	switch fc.Kind {
+	case "frame":
+		// a frame whose type / flags / length / pad-length octet sit on a parser boundary,
+		// sent behind a legal preface and one open stream
+		bf := boundaryFrame(fc.Idx)
+		enc := NewHEnc()
+		r0 := ReqSpec{Tag: "c0-r0", Method: "POST", Path: "/open", Host: "fixed.verif.test"}
+		pre := append([]byte(ClientPreface), FramesBytes(SettingsFrame())...)
+		hs := HeadersFrames(1, enc.Block([][2]string{{":method", "POST"}, {":scheme", "https"}, {":authority", r0.Host}, {":path", r0.Path}, {"x-tag", r0.Tag}}), false, nil, -1, nil)
+		cp.Steps = []Step{{Kind: "connect"}, {Kind: "write", Pieces: [][]byte{append(pre, FramesBytes(hs...)...)}}, {Kind: "write", Pieces: [][]byte{bf.Bytes()}}, {Kind: "readeof"}, {Kind: "close"}}
+		m.Reqs = nil
+		plan.Args = []string{"-timeout-http-idle", "2s"}
 	case "abort":
 		cp.AbortKind, cp.AbortAt = fc.How, fc.Idx
 	case "read":
@@ -434,7 +478,7 @@ func c10Case(p map[string]int, i int) *Case {
 		checkControl(w, c, 2, c.Summary)
 	}
 	c.Nontrivial = func(w *World, c *Case) bool {
-		return w.Clients[0].aborted || len(w.Net.Faults) > 0
+		return w.Clients[0].aborted || len(w.Net.Faults) > 0 || fc.Kind == "frame"
 	}
 	return c
 }
@@ -464,8 +508,15 @@ func drawC10(t *rapid.T) *Case {
 			stream = append(stream, FramesBytes(g...)...)
 		}
 		nm := rapid.IntRange(1, 6).Draw(t, "nmut")
+		if drawBool(t, "boundarystorm", 35) {
+			nm = rapid.IntRange(10, 40).Draw(t, "nmutmany")
+		}
 		for k := 0; k < nm; k++ {
-			switch rapid.IntRange(0, 5).Draw(t, "mutkind") {
+			mk := rapid.IntRange(0, 5).Draw(t, "mutkind")
+			if nm >= 10 {
+				mk = 4 // a storm of boundary frames (truncation would cut them off)
+			}
+			switch mk {
 			case 4, 5:
 				// a frame whose length / padding / flags sit on a parser boundary
 				typ := uint8(rapid.IntRange(0, 9).Draw(t, "bt"))
@@ -475,8 +526,8 @@ func drawC10(t *rapid.T) *Case {
 					pl[i] = byte(rapid.IntRange(0, 255).Draw(t, "bb"))
 				}
 				if ln > 0 {
-					// pad-length octet around the frame length
-					pl[0] = byte([]int{0, ln - 1, ln, ln + 1, 255, ln - 2 + 256}[rapid.IntRange(0, 5).Draw(t, "bpad")] & 0xff)
+					// pad-length octet around the frame length and around length minus the fixed fields
+					pl[0] = byte([]int{0, ln - 1, ln, ln + 1, 255, ln - 2, ln - 5, ln - 6, ln - 7}[rapid.IntRange(0, 8).Draw(t, "bpad")] & 0xff)
 				}
 				flags := []uint8{0x8, 0x28, 0x20, 0x9, 0x2d, 0x0, 0x4, 0x1}[rapid.IntRange(0, 7).Draw(t, "bf")]
 				sid := uint32(rapid.IntRange(0, 5).Draw(t, "bs"))
